@@ -27,12 +27,15 @@ RULE = ("a case is one (UI state, event) pair executed through the real update()
         "Left Right Delete, Tick(0), Tick(80), Error}; search queries are expanded up to the stated length; distinct = "
         "distinct (state, event) pairs; non-trivial = the event changed the state; in addition random walks (800 x 80 steps quick, 4000 x 400 thorough) "
         "feed each step the state the previous one produced: search queries far beyond the breadth-first bound, characters of 1-4 bytes, regular-expression "
-        "metacharacters, long runs of navigation keys")
+        "metacharacters, long runs of navigation keys; and draw sessions (480 x 40 steps quick, 6000 x 120 thorough) in which every event is followed by the real "
+        "build_table on a ratatui test backend and the row count is read from the rendered screen")
 
 ASSUMPTIONS = [
     "the abstract state (rows displayed, aircraft known but not displayed, selected, search mode, query, sort key, order, quit, width) is everything update() reads or writes; "
     "the known aircraft are put into the state vectors by the real update_snapshot from one identification frame each",
     "rows are only changed by rendering (table.rs), not by update(): each table size is explored separately",
+    "draw sessions: aircraft stamped 5 s ahead of the wall clock are the ones table.rs lists (heard within 30 s, more than one message); a session lasts far less than the 35 s of margin; "
+    "a selection of None (ratatui: nothing selected, e.g. after an empty table was drawn) is counted, not judged",
     "documented keys: (Esc/Q) quit, (up/K) (down/J) (top/G) navigation, (/) search, . A C F L V sort, - order (docs/output.md, INFO_TEXT); "
     "inside the search box characters are text, Enter/Esc leave it",
 ]
@@ -240,6 +243,122 @@ def deep_walks(rep, binary, pool, sizes, nwalk, steps, seed):
     rep.extra["deep_walk_steps"] = steps
 
 
+def draw_sessions(rep, binary, pool, nsess, steps, seed):
+    """sessions through the real update() AND the real build_table (driver mode `tuidraw`, ratatui test backend): the rows are
+    the ones the renderer puts on the screen (count read from the rendered title), not a list the harness wrote. Aircraft
+    known to the program but not on the screen (silent for minutes, heard once, excluded by the search box) are part of
+    every second session. Judged at every key: no panic in update() or in the renderer; the selected index after update()
+    is below the number of rows that were on the screen when the key was pressed (0 when there were none); after the next
+    draw it is below the number of rows now on the screen; flags as in the breadth-first pass."""
+    import random
+    rng = random.Random(seed ^ 0xD7A3)
+    nav = [{"char": "j"}, {"char": "k"}, {"code": "Down"}, {"code": "Up"}, {"char": "g"}, {"code": "Home"}, {"code": "PageUp"}, {"code": "End"}, {"code": "PageDown"}]
+    lines, meta = [], []
+    for i in range(nsess):
+        shown = rng.choice([0, 1, 1, 2, 3, 5, 8])
+        silent = rng.choice([0, 0, 1, 2, 3]) if i % 2 else 0
+        once = rng.choice([0, 1, 2]) if i % 2 else 0
+        pool_frames = KNOWN[:]
+        rng.shuffle(pool_frames)
+        ac = []
+        for f in pool_frames[:shown]:
+            ac.append({"frame": f, "age": -5.0, "copies": rng.choice([2, 3, 5])})
+        for f in pool_frames[shown:shown + silent]:
+            ac.append({"frame": f, "age": rng.choice([45.0, 120.0, 900.0]), "copies": rng.choice([2, 4])})
+        for f in pool_frames[shown + silent:shown + silent + once]:
+            ac.append({"frame": f, "age": -5.0, "copies": 1})
+        rng.shuffle(ac)
+        evs = []
+        style = rng.choice(["navigator", "navigator", "searcher", "mixed"])
+        while len(evs) < steps:
+            r = rng.random()
+            if style == "navigator" or (style == "mixed" and r < 0.6):
+                e = rng.choice(nav[:4]) if rng.random() < 0.8 else rng.choice(nav + [{"char": c} for c in "acv.fl-"] + [{"tick": rng.choice([60, 80, 100, 140])}])
+                evs.append(e)
+            else:
+                evs.append({"char": "/"})
+                for ch in rng.choice(["4", "40", "400", "known", "zz", "0", "(", "4000", "n0"]):
+                    evs.append({"char": ch})
+                evs += [rng.choice(nav[:4]) for _ in range(rng.randrange(0, 3))]
+                evs.append({"code": rng.choice(["Enter", "Esc", "Enter"])})
+                evs += [rng.choice(nav[:4]) for _ in range(rng.randrange(1, 5))]
+        evs = evs[:steps]
+        lines.append({"aircraft": ac, "width": rng.choice([60, 80, 120, 160]), "height": rng.choice([12, 24, 40]), "events": evs})
+        meta.append((shown, silent, once))
+    chunks = [lines[i::16] for i in range(16)]
+    idx = [list(range(len(lines)))[i::16] for i in range(16)]
+    logs = pool.starmap(drive, [(binary, "tuidraw", c) for c in chunks if c])
+    k = 0
+    for c, ix in zip(chunks, idx):
+        if not c:
+            continue
+        log = logs[k]
+        k += 1
+        by = {}
+        for rec in log:
+            by.setdefault(rec.get("i"), []).append(rec)
+        for local, (cmd, gi) in enumerate(zip(c, ix)):
+            recs = by.get(local, [])
+            shown, silent, once = meta[gi]
+            replay = {"mode": "tuidraw", "session": cmd}
+            if not recs or recs[0].get("result") == "no-terminal":
+                raise Inconclusive(f"tuidraw driver gave no log for session {gi}")
+            first = recs[0]
+            if first.get("result") == "panic":
+                rep.violation("C17:panic:draw-session:first-draw", f"the renderer panicked on the first draw: {first.get('panic')}", replay)
+                continue
+            if first.get("rows") is not None:
+                rep.cls(f"draw-session:rows-on-screen:{min(first['rows'], 8)}")
+                if first["rows"] != shown:
+                    # which aircraft are listed is table.rs' business (count > 1, heard within 30 s); the harness only notes it
+                    rep.cls("draw-session:rows-differ-from-plan")
+            if silent or once:
+                rep.cls("draw-session:aircraft-known-but-not-on-screen")
+            prev = first.get("after_draw")
+            for rec in recs[1:]:
+                step = rec.get("step")
+                if rec.get("result") == "bad-event":
+                    raise Inconclusive(f"tuidraw driver rejected an event of session {gi}")
+                e = cmd["events"][step]
+                name = ev_name(e) if len(ev_name(e)) < 12 and ev_name(e).isascii() else "char:non-ascii"
+                rep.evaluations += 1
+                rep.cls("draw-session:steps")
+                rb = dict(replay, failing_step=step)
+                if rec.get("result") == "panic":
+                    rep.violation(f"C17:panic:draw-session:{rec.get('where')}:{name}", f"{rec.get('where')} panicked on {name} (step {step}): {rec.get('panic')}", rb)
+                    break
+                au, ad, rows_before, rows = rec["after_update"], rec["after_draw"], rec.get("rows_before"), rec.get("rows")
+                sel = au["selected"]
+                if rows_before is None:
+                    rep.cls("draw-session:row-count-not-readable")
+                elif sel is None:
+                    rep.cls("draw-session:no-row-selected")
+                elif (rows_before == 0 and sel != 0) or (rows_before > 0 and sel >= rows_before):
+                    rep.violation(f"C17:selection-range:draw-session:{name}", f"{name} (step {step}) with {rows_before} row(s) on the screen ({shown} listed, {silent} silent, {once} heard once): "
+                                  f"selected = {sel} afterwards; state before {prev}", rb)
+                    break
+                else:
+                    if prev and prev.get("selected") is not None and rows_before and prev["selected"] == rows_before - 1 and sel == 0 and name in ("char:j", "Down") and rows_before > 1:
+                        rep.cls("draw-session:wrap-at-bottom")
+                    if prev and prev.get("selected") == 0 and rows_before and sel == rows_before - 1 and name in ("char:k", "Up") and rows_before > 1:
+                        rep.cls("draw-session:wrap-at-top")
+                sd = ad["selected"]
+                if rows is not None and sd is not None and ((rows == 0 and sd != 0) or (rows > 0 and sd >= rows)):
+                    rep.violation(f"C17:selection-range:draw-session:after-draw", f"after the draw that follows {name} (step {step}): selected = {sd} with {rows} row(s) on the screen", rb)
+                    break
+                if rows is not None and rows_before is not None and rows < rows_before and au["search"]:
+                    rep.cls("draw-session:search-narrows-the-table")
+                if prev:
+                    flags = judge(dict(prev, n=1, selected=0), e, dict(au, n=1, selected=0), "ok", None)
+                    for cname, text in flags:
+                        rep.violation(f"C17:{cname}", "draw session: " + text, rb)
+                    if key_of(dict(au, hidden=0)) != key_of(dict(prev, hidden=0)):
+                        rep.hashes.add(hash(("draw", key_of(dict(prev, hidden=0)), name, rows_before)))
+                prev = ad
+    rep.extra["draw_sessions"] = nsess
+    rep.extra["draw_session_steps"] = steps
+
+
 def run(tier, seed, binary, pool):
     rep = Rep("C17")
     rep.rule = RULE
@@ -256,6 +375,8 @@ def run(tier, seed, binary, pool):
     complete = explore(rep, binary, pool, sizes, qmax, expand, 2_000_000, hidden=(0, 2) if tier == "quick" else (0, 1, 3))
     rep.exhaustive = complete
     deep_walks(rep, binary, pool, sizes, 800 if tier == "quick" else 4000, 80 if tier == "quick" else 400, seed)
+    draw_sessions(rep, binary, pool, 480 if tier == "quick" else 6000, 40 if tier == "quick" else 120, seed)
+    rep.extra["mandatory"] += ["draw-session:steps", "draw-session:aircraft-known-but-not-on-screen", "draw-session:wrap-at-bottom", "draw-session:wrap-at-top", "draw-session:search-narrows-the-table"]
     rep.extra["mandatory"] += ["known-but-not-displayed:2" if tier == "quick" else "known-but-not-displayed:3", "deep-walk:steps", "deep-walk:query>=24-bytes", "deep-walk:query-with-multi-byte-characters"]
     # the real terminal interface in a pseudo-terminal (key bytes -> crossterm -> tui.rs -> update() -> table.rs)
     import os
@@ -282,9 +403,28 @@ def run(tier, seed, binary, pool):
     return d
 
 
+def _replay_draw(rep, binary, session):
+    """one recorded draw session again (same judgement, selection clause only)"""
+    log = drive(binary, "tuidraw", [session])
+    for rec in log[1:]:
+        if rec.get("result") == "panic":
+            rep.violation("C17:panic:draw-session", f"{rec.get('where')} panicked at step {rec.get('step')}: {rec.get('panic')}", {"mode": "tuidraw", "session": session})
+            break
+        au, rb = rec["after_update"], rec.get("rows_before")
+        sel = au["selected"]
+        rep.evaluations += 1
+        if rb is not None and sel is not None and ((rb == 0 and sel != 0) or (rb > 0 and sel >= rb)):
+            rep.violation("C17:selection-range:draw-session", f"step {rec.get('step')}: selected = {sel} with {rb} row(s) on the screen", {"mode": "tuidraw", "session": session})
+            break
+
+
 def replay(binary, data):
     rep = Rep("C17")
     r = data["replay"]
+    if r.get("mode") == "tuidraw":
+        rep2 = Rep("C17")
+        _replay_draw(rep2, binary, r["session"])
+        return rep2.to_dict()
     log = drive(binary, "tui", [{"state": r["state"], "event": r["event"]}])
     res = log[0]
     for cname, text in judge(res["before"], r["event"], res["after"], res.get("result"), res.get("panic")):
